@@ -5,11 +5,8 @@ CONSTANTS
  Dev = "none"
  FixedOrder = TRUE
  Paths <- MCPaths
- MaxOps = 5
- WithFF = FALSE
- HDev = "none"
+ MaxOps = 4
+ WithFF = TRUE
+ HDev = "readerReusesBlock"
 INVARIANT ReadIsCurrent
-INVARIANT FsHoldsWrite
-INVARIANT HistExport
-PROPERTY OnlyWritesChangeFiles
 CHECK_DEADLOCK FALSE
